@@ -5,6 +5,7 @@ let modes : (string * (string -> string)) list = [
   "log", Mode_log.check_line;
   "codec", Mode_codec.check_line;
   "srvseq", Mode_srvseq.check_line;
+  "recv", Mode_recv.check_line;
 ]
 
 let () =
